@@ -114,19 +114,34 @@ void ir_check_access(u64 a, u64 n);
 #define IR_CHK(a, n) ((void)0)
 #endif
 #define IR_RANGE(a) IR_ASSERT((a) >= IR_MEM_BASE && (a) < IR_MEM_END, "memory access outside the mapped address space (NULL / wild pointer)")
-static inline u64 IR_LD64(u64 a) { IR_ASSERT((a & 7) == 0, "unaligned 8-byte load"); IR_RANGE(a); IR_CHK(a, 8); return ir_ldw(a); }
-static inline u32 IR_LD32(u64 a) { IR_ASSERT((a & 3) == 0, "unaligned 4-byte load"); IR_RANGE(a); IR_CHK(a, 4); u64 w = ir_ldw(a & ~7ull); return (u32)(w >> ((a & 4) * 8)); }
-static inline u16 IR_LD16(u64 a) { IR_ASSERT((a & 1) == 0, "unaligned 2-byte load"); IR_RANGE(a); IR_CHK(a, 2); u64 w = ir_ldw(a & ~7ull); return (u16)(w >> ((a & 6) * 8)); }
 #ifdef IR_BYTEWIN
 /* byte window (opt-in, e.g. C20): a small range of memory is mirrored byte by byte, so that a CONCRETE byte stays a constant for cbmc's constant propagation
    even when a symbolic byte lives in the same 64-bit word (otherwise every byte of that word turns symbolic and path-wise exploration forks on all of them).
-   All writes to the window must be 1-byte stores (asserted); the word view is kept coherent as well. */
+   Accesses of any width that lie inside the window are composed from / split into its bytes (the word view is then NOT updated: every access to the window goes through it). */
 static u64 ir_bytewin_base; static u8 ir_bytewin[IR_BYTEWIN];
 #define IR_IN_BYTEWIN(a) (ir_bytewin_base != 0 && (a) >= ir_bytewin_base && (a) < ir_bytewin_base + IR_BYTEWIN)
-#define IR_BYTEWIN_NOWIDE(a, n) IR_ASSERT(!(ir_bytewin_base != 0 && (a) + (n) > ir_bytewin_base && (a) < ir_bytewin_base + IR_BYTEWIN), "byte window written by a multi-byte store (harness modelling limit)")
+#define IR_BYTEWIN_NOWIDE(a, n) ((void)0)
+static inline u64 ir_bw_ld(u64 a, int n) { u64 v = 0; for (int i = 0; i < n; i++) v |= (u64)ir_bytewin[a - ir_bytewin_base + (u64)i] << (8 * i); return v; }
+static inline void ir_bw_st(u64 a, int n, u64 v) { for (int i = 0; i < n; i++) ir_bytewin[a - ir_bytewin_base + (u64)i] = (u8)(v >> (8 * i)); }
+#define IR_BW_WHOLE(a, n) (ir_bytewin_base != 0 && (a) >= ir_bytewin_base && (a) + (n) <= ir_bytewin_base + IR_BYTEWIN)
 #else
 #define IR_BYTEWIN_NOWIDE(a, n) ((void)0)
 #endif
+static inline u64 IR_LD64(u64 a) {
+#ifdef IR_BYTEWIN
+  if (IR_BW_WHOLE(a, 8)) { IR_CHK(a, 8); return (u64)ir_bw_ld(a, 8); }
+#endif
+  IR_ASSERT((a & 7) == 0, "unaligned 8-byte load"); IR_RANGE(a); IR_CHK(a, 8); return ir_ldw(a); }
+static inline u32 IR_LD32(u64 a) {
+#ifdef IR_BYTEWIN
+  if (IR_BW_WHOLE(a, 4)) { IR_CHK(a, 4); return (u32)ir_bw_ld(a, 4); }
+#endif
+  IR_ASSERT((a & 3) == 0, "unaligned 4-byte load"); IR_RANGE(a); IR_CHK(a, 4); u64 w = ir_ldw(a & ~7ull); return (u32)(w >> ((a & 4) * 8)); }
+static inline u16 IR_LD16(u64 a) {
+#ifdef IR_BYTEWIN
+  if (IR_BW_WHOLE(a, 2)) { IR_CHK(a, 2); return (u16)ir_bw_ld(a, 2); }
+#endif
+  IR_ASSERT((a & 1) == 0, "unaligned 2-byte load"); IR_RANGE(a); IR_CHK(a, 2); u64 w = ir_ldw(a & ~7ull); return (u16)(w >> ((a & 6) * 8)); }
 static inline u8  IR_LD8(u64 a)  { IR_RANGE(a); IR_CHK(a, 1);
 #ifdef IR_BYTEWIN
   { _Bool inwin = IR_IN_BYTEWIN(a); u8 bw = ir_bytewin[inwin ? a - ir_bytewin_base : 0];     /* no control-flow branch on the address */
@@ -136,9 +151,21 @@ static inline u8  IR_LD8(u64 a)  { IR_RANGE(a); IR_CHK(a, 1);
 #endif
 }
 static inline u128 IR_LD128(u64 a) { return (u128)IR_LD64(a) | ((u128)IR_LD64(a + 8) << 64); }
-static inline void IR_ST64(u64 a, u64 v) { IR_ASSERT((a & 7) == 0, "unaligned 8-byte store"); IR_RANGE(a); IR_CHK(a, 8); IR_BYTEWIN_NOWIDE(a, 8); ir_stw(a, v); }
-static inline void IR_ST32(u64 a, u32 v) { IR_ASSERT((a & 3) == 0, "unaligned 4-byte store"); IR_RANGE(a); IR_CHK(a, 4); IR_BYTEWIN_NOWIDE(a, 4); u64 sh = (a & 4) * 8; u64 w = ir_ldw(a & ~7ull); u64 nw = (w & ~(0xffffffffull << sh)) | ((u64)v << sh); ir_stw(a & ~7ull, nw); }
-static inline void IR_ST16(u64 a, u16 v) { IR_ASSERT((a & 1) == 0, "unaligned 2-byte store"); IR_RANGE(a); IR_CHK(a, 2); IR_BYTEWIN_NOWIDE(a, 2); u64 sh = (a & 6) * 8; u64 w = ir_ldw(a & ~7ull); u64 nw = (w & ~(0xffffull << sh)) | ((u64)v << sh); ir_stw(a & ~7ull, nw); }
+static inline void IR_ST64(u64 a, u64 v) {
+#ifdef IR_BYTEWIN
+  if (IR_BW_WHOLE(a, 8)) { IR_CHK(a, 8); ir_bw_st(a, 8, (u64)v); return; }
+#endif
+  IR_ASSERT((a & 7) == 0, "unaligned 8-byte store"); IR_RANGE(a); IR_CHK(a, 8); IR_BYTEWIN_NOWIDE(a, 8); ir_stw(a, v); }
+static inline void IR_ST32(u64 a, u32 v) {
+#ifdef IR_BYTEWIN
+  if (IR_BW_WHOLE(a, 4)) { IR_CHK(a, 4); ir_bw_st(a, 4, (u64)v); return; }
+#endif
+  IR_ASSERT((a & 3) == 0, "unaligned 4-byte store"); IR_RANGE(a); IR_CHK(a, 4); IR_BYTEWIN_NOWIDE(a, 4); u64 sh = (a & 4) * 8; u64 w = ir_ldw(a & ~7ull); u64 nw = (w & ~(0xffffffffull << sh)) | ((u64)v << sh); ir_stw(a & ~7ull, nw); }
+static inline void IR_ST16(u64 a, u16 v) {
+#ifdef IR_BYTEWIN
+  if (IR_BW_WHOLE(a, 2)) { IR_CHK(a, 2); ir_bw_st(a, 2, (u64)v); return; }
+#endif
+  IR_ASSERT((a & 1) == 0, "unaligned 2-byte store"); IR_RANGE(a); IR_CHK(a, 2); IR_BYTEWIN_NOWIDE(a, 2); u64 sh = (a & 6) * 8; u64 w = ir_ldw(a & ~7ull); u64 nw = (w & ~(0xffffull << sh)) | ((u64)v << sh); ir_stw(a & ~7ull, nw); }
 static inline void IR_ST8(u64 a, u8 v)   { IR_RANGE(a); IR_CHK(a, 1);
 #ifdef IR_BYTEWIN
   if (IR_IN_BYTEWIN(a)) ir_bytewin[a - ir_bytewin_base] = v;
